@@ -169,6 +169,12 @@ def main():
            'traces_validated_against_impl': 0, 'disagreements': 0, 'impl_panics': 0}
     certs = []
     if okh and okd:
+        import fam_sets
+        extra_runs = [0]
+        def runner(cases):
+            extra_runs[0] += 1
+            return run_cases(workdir, 'extra%d' % extra_runs[0], cases)
+        fam_sets.RUNNER = runner
         for fam in spec['families']:
             fam_name = fam['name']
             cases, meta = fam['gen'](tier, rng)
